@@ -298,12 +298,23 @@ fn exec(op: &Op, l: &mut Local, t: &Arc<Tables>) -> Result<ObsVal, String> {
             }
         }};
     }
+    // single-pair variants go through the singular API (with_property / add_property)
+    macro_rules! counted1 {
+        ($props:expr) => {{
+            let pair = $props[0].clone();
+            let cnt = &mut l.closures;
+            move || {
+                *cnt += 1;
+                pair
+            }
+        }};
+    }
     match op {
         Op::Root { slot, name, trace, remote_parent, sampled, props } => {
             let ctx = SpanContext::new(TraceId(trace.0), SpanId(*remote_parent)).sampled(*sampled);
             let mut s = Span::root(name.clone(), ctx);
             if !props.is_empty() {
-                s = s.with_properties(counted!(props));
+                s = if props.len() == 1 { s.with_property(counted1!(props)) } else { s.with_properties(counted!(props)) };
             }
             put_span(t, *slot, s)?;
             Ok(ObsVal::Unit)
@@ -319,7 +330,7 @@ fn exec(op: &Op, l: &mut Local, t: &Arc<Tables>) -> Result<ObsVal, String> {
                 Span::enter_with_parents(name.clone(), ps.iter().map(|a| &**a))
             };
             if !props.is_empty() {
-                s = s.with_properties(counted!(props));
+                s = if props.len() == 1 { s.with_property(counted1!(props)) } else { s.with_properties(counted!(props)) };
             }
             drop(ps);
             put_span(t, *slot, s)?;
@@ -328,7 +339,7 @@ fn exec(op: &Op, l: &mut Local, t: &Arc<Tables>) -> Result<ObsVal, String> {
         Op::ChildLocal { slot, name, props } => {
             let mut s = Span::enter_with_local_parent(name.clone());
             if !props.is_empty() {
-                s = s.with_properties(counted!(props));
+                s = if props.len() == 1 { s.with_property(counted1!(props)) } else { s.with_properties(counted!(props)) };
             }
             put_span(t, *slot, s)?;
             Ok(ObsVal::Unit)
@@ -349,14 +360,30 @@ fn exec(op: &Op, l: &mut Local, t: &Arc<Tables>) -> Result<ObsVal, String> {
         }
         Op::AddProps { slot, props } => {
             let s = get_span(t, *slot)?;
-            s.add_properties(counted!(props));
+            if props.len() == 1 {
+                s.add_property(counted1!(props));
+            } else {
+                s.add_properties(counted!(props));
+            }
+            Ok(ObsVal::Unit)
+        }
+        Op::AddEvent { slot, name, props } if name.starts_with("dep.") => {
+            // the deprecated free-standing form
+            let s = get_span(t, *slot)?;
+            let props = props.clone();
+            let cnt = &mut l.closures;
+            #[allow(deprecated)]
+            Event::add_to_parent(name.clone(), &s, move || {
+                *cnt += 1;
+                props.into_iter().map(|(k, v)| (k.into(), v.into())).collect::<Vec<(std::borrow::Cow<'static, str>, std::borrow::Cow<'static, str>)>>()
+            });
             Ok(ObsVal::Unit)
         }
         Op::AddEvent { slot, name, props } => {
             let s = get_span(t, *slot)?;
             let mut e = Event::new(name.clone());
             if !props.is_empty() {
-                e = e.with_properties(counted!(props));
+                e = if props.len() == 1 { e.with_property(counted1!(props)) } else { e.with_properties(counted!(props)) };
             }
             s.add_event(e);
             Ok(ObsVal::Unit)
@@ -388,7 +415,7 @@ fn exec(op: &Op, l: &mut Local, t: &Arc<Tables>) -> Result<ObsVal, String> {
         Op::LocalEnter { name, props } => {
             let mut s = LocalSpan::enter_with_local_parent(name.clone());
             if !props.is_empty() {
-                s = s.with_properties(counted!(props));
+                s = if props.len() == 1 { s.with_property(counted1!(props)) } else { s.with_properties(counted!(props)) };
             }
             l.guards.push(Guard::Local(s));
             Ok(ObsVal::Unit)
@@ -415,13 +442,27 @@ fn exec(op: &Op, l: &mut Local, t: &Arc<Tables>) -> Result<ObsVal, String> {
             Ok(ObsVal::Unit)
         }
         Op::LocalAddProps { props } => {
-            LocalSpan::add_properties(counted!(props));
+            if props.len() == 1 {
+                LocalSpan::add_property(counted1!(props));
+            } else {
+                LocalSpan::add_properties(counted!(props));
+            }
+            Ok(ObsVal::Unit)
+        }
+        Op::LocalAddEvent { name, props } if name.starts_with("dep.") => {
+            let props = props.clone();
+            let cnt = &mut l.closures;
+            #[allow(deprecated)]
+            Event::add_to_local_parent(name.clone(), move || {
+                *cnt += 1;
+                props.into_iter().map(|(k, v)| (k.into(), v.into())).collect::<Vec<(std::borrow::Cow<'static, str>, std::borrow::Cow<'static, str>)>>()
+            });
             Ok(ObsVal::Unit)
         }
         Op::LocalAddEvent { name, props } => {
             let mut e = Event::new(name.clone());
             if !props.is_empty() {
-                e = e.with_properties(counted!(props));
+                e = if props.len() == 1 { e.with_property(counted1!(props)) } else { e.with_properties(counted!(props)) };
             }
             LocalSpan::add_event(e);
             Ok(ObsVal::Unit)
